@@ -78,7 +78,7 @@ def verify_table(run):
     # _precedence is strictly decreasing in its argument (symbolic execution of its body: maximum - importance*step with step > 0)
     body = [ast.unparse(st) for st in body_of(pf)]
     dec = body == ["maximum = 100", "step = 10", "return maximum - importance * step"]
-    run.add(static("factory.FunctionFactory._precedence/strictly_decreasing", dec, f"body: {body} (higher importance number = lower precedence value)", fn="factory.FunctionFactory._precedence", meta={"replay": RP_TABLE}))
+    run.add(static("factory.FunctionFactory._precedence/strictly_decreasing", dec, f"body: {body} (higher importance number = lower precedence value)", fn="factory.FunctionFactory._precedence", meta={"soft": True, "replay": RP_TABLE}))
     got = {r[0]: r for r in rows}
     run.add(static(f"{fq}/exactly_the_13_operators", sorted(got) == sorted(OPERATORS) and len(rows) == len(OPERATORS), f"registered operators {sorted(got)}", fn=fq, meta={"replay": RP_TABLE}))
     for name, (level, assoc, arity, meth) in OPERATORS.items():
@@ -93,7 +93,7 @@ def verify_table(run):
         conds = [ast.unparse(n.test) for n in ast.walk(itp) if isinstance(n, ast.If) and "associativity" in ast.unparse(n.test)]
         want = "element.associativity < 0 and element.precedence <= top.precedence or (element.associativity > 0 and element.precedence < top.precedence)"
         run.add(static("term.Function.infix_to_postfix/popping_rule", conds == [want], f"pop condition(s): {conds} (left-associative: pop on equal precedence; right-associative: only on higher)",
-                       fn="term.Function.infix_to_postfix", meta={"replay": RP_FORM}))
+                       fn="term.Function.infix_to_postfix", meta={"soft": True, "replay": RP_FORM}))
     except NotFound as ex_:
         run.add(static("term.Function.infix_to_postfix/popping_rule", False, f"not found: {ex_}"))
 
